@@ -48,33 +48,114 @@ def check_orientation(run, A):
     ok = False
     why = 'not of the form (-sqrt(sum(abs(mask[:, None] - reference[None]) ** 2, axis=-1))).T'
     # `-np.sqrt(...).T` parses as -(sqrt(...).T); accept the transpose inside or outside the negation
-    neg = transposed = False
+    neg = False
+    reorders = []            # outermost first
     inner = r
-    for _ in range(3):
-        if inner.op == 'attr' and inner.args[1] == 'T':
-            transposed, inner = True, strip_views(inner.args[0])
-        elif inner.op == 'unop' and inner.args[0] == 'USub':
-            neg, inner = True, strip_views(inner.args[1])
-    if transposed:
-        subs = [x for x in walk_terms(inner) if x.op == 'binop' and x.args[0] == 'Sub']
-        if neg and subs:
-            a, b = strip_views(subs[0].args[1]), strip_views(subs[0].args[2])
+    from ..walk import axis_reordering
 
-            def none_pos(t):
-                if t.op == 'sub' and t.args[1].op == 'tuple':
-                    items = t.args[1].args[0]
-                    for i, it in enumerate(items):
-                        if const_val(it) is None:
-                            return i
-                return None
-            pa, pb = none_pos(a), none_pos(b)
-            # estimate expanded at axis 1 (estimate index first), reference at axis 0 -> [estimate, reference]; .T -> [reference, estimate]
-            ok = data_derives(a, 'mask') and not data_derives(a, 'reference_mask') and data_derives(b, 'reference_mask') and pa == 1 and pb == 0
-            if not ok and data_derives(a, 'reference_mask') and data_derives(b, 'mask'):
-                ok = none_pos(a) == 0 and none_pos(b) == 1
-            sm = [x for x in walk_terms(inner) if is_call_to(x, 'numpy.sum')]
-            ok = ok and bool(sm) and const_val(call_arg(sm[0], None, 'axis')) == -1
-    run.check(ok, 'ORIENT', '_ScoreMatrix.euclidean: negative distance, rows = reference after the transpose', fn.loc(), '', why, construct=f'ORIENT::{q}::layout')
+    def reorder_of(t):
+        ro = axis_reordering(t)
+        if ro is None and is_call_to(t, 'numpy.rollaxis'):
+            ax, st = const_val(call_arg(t, 1, 'axis')), call_arg(t, 2, 'start')
+            st = 0 if st is None else const_val(st)
+            if isinstance(ax, int) and isinstance(st, int):
+                return call_arg(t, 0, 'a'), ('roll', ax, st)
+            return call_arg(t, 0, 'a'), ('unknown',)
+        return ro
+    for _ in range(6):
+        ro = reorder_of(inner)
+        if ro is not None:
+            reorders.append(ro[1])
+            inner = strip_views(ro[0])
+        elif inner.op == 'unop' and inner.args[0] == 'USub':
+            neg, inner = not neg, strip_views(inner.args[1])
+    subs = [x for x in walk_terms(inner) if x.op == 'binop' and x.args[0] == 'Sub']
+    layout = None            # 'mr': [estimate, reference] before the transposes; 'rm': [reference, estimate]
+    sum_last = False
+    if subs:
+        a, b = strip_views(subs[0].args[1]), strip_views(subs[0].args[2])
+
+        def none_pos(t):
+            if is_call_to(t, 'numpy.expand_dims'):
+                v = const_val(call_arg(t, 1, 'axis'))
+                return v if isinstance(v, int) and v >= 0 else None
+            if t.op == 'sub' and t.args[1].op == 'tuple':
+                items = t.args[1].args[0]
+                for i, it in enumerate(items):
+                    if const_val(it) is None:
+                        return i
+                    if const_val(it) is Ellipsis:
+                        return None
+            return None
+        m_, r_ = None, None
+        if data_derives(a, 'mask') and not data_derives(a, 'reference_mask') and data_derives(b, 'reference_mask') and not data_derives(b, 'mask'):
+            m_, r_ = a, b
+        elif data_derives(a, 'reference_mask') and not data_derives(a, 'mask') and data_derives(b, 'mask') and not data_derives(b, 'reference_mask'):
+            m_, r_ = b, a
+        if m_ is not None:
+            pm, pr = none_pos(m_), none_pos(r_)
+            # estimate expanded at axis 1 (estimate index first), reference at axis 0 -> [estimate, reference]; one transpose -> [reference, estimate]
+            layout = 'mr' if (pm, pr) == (1, 0) else 'rm' if (pm, pr) == (0, 1) else None
+        sm = [x for x in walk_terms(inner) if is_call_to(x, 'numpy.sum')]
+        sum_last = len(sm) == 1 and const_val(call_arg(sm[0], None, 'axis')) == -1
+    # a transposition deeper inside the expression is not followed
+    deeper = any(reorder_of(x) is not None for x in walk_terms(inner) if x.op in ('call', 'attr'))
+    recognised = layout is not None and sum_last and len(subs) == 1 and not deeper and ('unknown',) not in reorders
+
+    def apply(labels, ro):
+        n_ = len(labels)
+        def ax(a):
+            if not -n_ <= a < n_:
+                raise IndexError(a)
+            return a % n_
+        if ro[0] == 'reverse':
+            return labels[::-1]
+        if ro[0] == 'perm':
+            if sorted(ax(a) for a in ro[1]) != list(range(n_)):
+                raise IndexError(ro[1])
+            return [labels[ax(a)] for a in ro[1]]
+        if ro[0] == 'swap':
+            a, b = (tuple(ro[1]) * 2)[:2]
+            out = list(labels)
+            out[ax(a)], out[ax(b)] = out[ax(b)], out[ax(a)]
+            return out
+        if ro[0] == 'move':
+            out = list(labels)
+            x = out.pop(ax(ro[1]))
+            out.insert(ax(ro[2]), x)
+            return out
+        if ro[0] == 'roll':
+            a, st = ax(ro[1]), ro[2]
+            st = st + n_ if st < 0 else st
+            if not 0 <= st <= n_:
+                raise IndexError(st)
+            out = list(labels)
+            x = out[a]
+            out[a] = None
+            out.insert(st, x)
+            out.remove(None)
+            return out
+        raise IndexError(ro)
+    ok = False
+    got = []
+    if recognised:
+        ok = neg
+        # the score of K x K classes (no independent axis) and of one independent axis, as the aligners pass it
+        for nb in (0, 1):
+            labels = (['estimate', 'reference'] if layout == 'mr' else ['reference', 'estimate']) + [f'independent{i}' for i in range(nb)]
+            try:
+                for ro in reversed(reorders):
+                    labels = apply(labels, ro)
+            except IndexError:
+                labels = ['<raises>']
+            got.append(labels)
+            ok = ok and labels == [f'independent{i}' for i in range(nb)] + ['reference', 'estimate']
+    if not recognised:
+        run.unresolved('ORIENT', '_ScoreMatrix.euclidean: negative distance, rows = reference after the transpose', fn.loc(), why)
+    else:
+        run.check(ok, 'ORIENT', '_ScoreMatrix.euclidean: negative distance, rows = reference after the transpose', fn.loc(), '',
+                  f'the score comes out with axes {" / ".join("[" + ", ".join(g_) + "]" for g_ in got)} (without / with one independent axis)'
+                  f'{"" if neg else ", and not negated"}: it must be the NEGATIVE distance laid out [independent..., reference, estimate]', construct=f'ORIENT::{q}::layout')
     # oracle passes (mask, reference_mask)
     q = P + 'OraclePermutationAlignment.calculate_mapping'
     fn = A.prog.func(q)
